@@ -256,6 +256,14 @@ static void run_case(cs::Src& s, cs::Ctx& ctx) {
     lit(v);
     text = gen::spell_document(s, sp, v);
   }
+  if (s.chance(1, 12)) {  // number tokens around the 63-character limit (longer ones are a zone, but must be safe)
+    size_t k = 58 + (size_t)s.below(12);
+    std::string tok;
+    for (size_t j = 0; j < k; j++) tok += (char)('0' + s.below(10));
+    if (s.coin()) tok.insert(1 + (size_t)s.below(tok.size() - 1), ".");
+    size_t at = text.find_first_of("0123456789");
+    text = at == std::string::npos ? "[" + tok + "]" : text.substr(0, at) + tok + text.substr(at);
+  }
   static const int limits[] = {10, 10, 10, 0, 1, 2, 3, 5};
   int limit = limits[s.below(8)];
   bool mutated = s.chance(1, 2);
